@@ -17,13 +17,13 @@ CLAIMED = {
   technique="TLA+ spec (ContentPack.tla: HintRespected, DedupShares) model-checked with TLC + trace validation of real creator runs",
   design="5 C16"),
  "C02": dict(
-  text="EntryStore.tla models schema -> layout -> entry encoding / decoding and both value-store kinds over digit strings (64-bit exact). TLC enumerates every entry set (<=2/3 entries over boundary digit strings, arrays over {0,1}, prefixes 0..2, plain/indexed stores, two variants of unequal size with constant or varying columns) and checks RoundTrip, Sufficient, VariantsEqualSize, StoreResolves and LayoutReparses (the reader's variant-splitting rule reproduces the variants written). Every final state is instantiated with Radix-256 boundary values and run through the real creator and reader, together with seeded random schemas and directed boundary scenarios; EntryStoreTrace.tla accepts a recorded execution only if the layout the independent decoder found in the bytes is sufficient for every value written (any sufficient width), every read returns exactly the entry written at that final position with its variant, each index exposes exactly its window and reads past it are 'none'.",
+  text="EntryStore.tla models schema -> layout -> entry encoding / decoding and both value-store kinds over digit strings (64-bit exact). TLC enumerates every entry set (<=2/3 entries over boundary digit strings, arrays over {0,1}, prefixes 0..2, plain/indexed stores, two variants of unequal size with constant or varying columns) and checks RoundTrip, Sufficient, VariantsEqualSize, StoreResolves and LayoutReparses (the reader's variant-splitting rule reproduces the variants written). Every final state is instantiated with Radix-256 boundary values and run through the real creator and reader, together with seeded random schemas and directed boundary scenarios; EntryStoreTrace.tla accepts a recorded execution only if the layout the independent decoder found in the bytes is sufficient for every value written (any sufficient width), every read returns exactly the entry written at that final position with its variant, each index exposes exactly its window and reads past it are 'none'; every entry read is also read through the typed property builders (Property::as_builder, the custom-reader API) and must give what the generic builder gives.",
   note="Trusted: TLC, tools/jbkdec.py (decoded layout), serde_json for 64-bit values. Creation that fails is accepted only for scenarios marked unrepresentable (store tail > 64 KiB); otherwise it is a violation.",
   technique="TLA+ spec (EntryStore.tla) model-checked with TLC + spec->code replay of its final states + code->spec trace validation (EntryStoreTrace.tla)",
   design="5 C02"),
  "C03": dict(
-  text="EntryOrder.tla: (order) for every set of byte strings <=3 over {00,61,ff}, every inline prefix 0..3 and both store kinds, the order the writer sorts by (inline prefix, value-store id, length) is the reader's lexicographic order; (find) the binary search of range.rs transcribed step by step is sound, complete, keeps its loop invariant, terminates (liveness under weak fairness) and agrees with the linear scan on every strictly increasing sequence <=7 over 0..8, every window and probe. Initial states are replayed through the real creator/reader (sorted stores, windows, every key and absent keys looked up in both modes through RangeTrait::find with the library's comparator, each compare_entry recorded). EntryOrderTrace.tla accepts only if the store read in position order is non-decreasing in the reader's order of its sort keys, every probe lies inside the window and the result is the entry carrying the key iff one was written; the exact probe sequence is policy level (drift only).",
-  note="Trusted: TLC, the harness's recording comparator (forwards to the library's PropertyCompare, answers ordered() itself because the library hard-wires false). Keys of a sorted store are pairwise distinct (key sets).",
+  text="EntryOrder.tla: (order) for every set of byte strings <=3 over {00,61,ff}, every inline prefix 0..3 and both store kinds, the order the writer sorts by (inline prefix, value-store id, length) is the reader's lexicographic order; (find) the binary search of range.rs transcribed step by step is sound, complete, keeps its loop invariant, terminates (liveness under weak fairness) and agrees with the linear scan on every strictly increasing sequence <=7 over 0..8 and on every non-decreasing sequence with keys written twice (<=8 over 0..4), every window and probe; SortedIsAccepted: the acceptance test of the creator's sort loop holds on every such sequence (the variant EqualIsGreater, the pinned comparison, violates it). Initial states are replayed through the real creator/reader (sorted stores, windows, every key and absent keys looked up in both modes through RangeTrait::find with the library's comparator, each compare_entry recorded). EntryOrderTrace.tla accepts only if the store read in position order is non-decreasing in the reader's order of its sort keys, every probe lies inside the window and the result is the entry carrying the key iff one was written; the exact probe sequence is policy level (drift only).",
+  note="Trusted: TLC, the harness's recording comparator (forwards to the library's PropertyCompare, answers ordered() itself because the library hard-wires false). With a key written twice the two search modes must agree on found / not found and both return an entry carrying the key (the scan the first, the bisection either).",
   technique="TLA+ spec (EntryOrder.tla, safety + liveness) model-checked with TLC + replay of its states + trace validation (EntryOrderTrace.tla)",
   design="5 C03"),
  "C15": dict(
@@ -32,12 +32,12 @@ CLAIMED = {
   technique="TLA+ spec (EntryOrder.tla refs machine) model-checked with TLC + replay + trace validation (EntryOrderTrace.tla)",
   design="5 C15"),
  "C08": dict(
-  text="ClusterPipeline.tla models every step of the pipeline (main dispatch with back-pressure counter, W workers taking from the spmc channel and sending buffers with tail offsets relative to the buffer, the single writer rebasing them and filling the address table by cluster id, channel closing and thread exits). TLC explores every schedule for W in 1..3, 4 clusters (5-6 in thorough) of every raw/compressed mix, MaxQueue 1 and 2W: QueueBound, WrittenOnce, NoOverlap, AddressPointsToOwnTail, AllAddressed, NothingLost, and termination under weak fairness. The real creator runs with 1, 2 and 15 workers (1..15 in thorough; taskset), 5..80 clusters, seeded delays in every Progress callback; ClusterPipelineTrace.tla checks the pipeline invariants on what was observed (callbacks + the cluster table found in the file by the independent decoder) and ContentPackTrace.tla that every address still resolves to its own bytes, counts are exact and the pack verifies.",
+  text="ClusterPipeline.tla models every step of the pipeline (main dispatch with back-pressure counter, W workers taking from the spmc channel and sending buffers with tail offsets relative to the buffer, the single writer rebasing them and filling the address table by cluster id, channel closing and thread exits). TLC explores every schedule for W in 1..3, 4 clusters (5-6 in thorough) of every raw/compressed mix, MaxQueue 1 and 2W: QueueBound, WrittenOnce, NoOverlap, AddressPointsToOwnTail, AllAddressed, NothingLost, and termination under weak fairness. The real creator runs with 1, 2, 3 and 16 CPUs (1..16 in thorough; taskset: one worker on 1 and 2 CPUs through the two branches of the floor, 2 and 15 workers), 5..80 clusters, seeded delays in every Progress callback; ClusterPipelineTrace.tla checks the pipeline invariants on what was observed (callbacks + the cluster table found in the file by the independent decoder) and ContentPackTrace.tla that every address still resolves to its own bytes, counts are exact and the pack verifies.",
   note="Real-code schedules are sampled (seeded perturbation through the Progress callbacks), the protocol is exhaustive in the model. Callback timing (Handle after NewCluster, file order = Written order) is policy level and reported as drift only.",
   technique="TLA+ spec (ClusterPipeline.tla, safety + liveness over all schedules) model-checked with TLC + trace validation of perturbed real runs (ClusterPipelineTrace.tla, ContentPackTrace.tla)",
   design="5 C08"),
  "C10": dict(
-  text="Packaging.tla: packs are identities held by files (container or single), the manifest records locations, the reader resolves a pack inside the entry-point file first, then at its recorded location, identity deciding. TLC explores every packaging mode, concat of every subset of files, prefix embedding, removals / replacements / relocations (27k states) and checks SameLogicalContent, IdentityIsUuid, MissingIsReported, PresentStillReads (the pinned locator, modelled as PinnedLocate, violates them). Every configuration is produced with the real creator and tools (3 packagings, concat in every order and of every subset containing the entry point, prefixes of 1/63/64/4096 bytes, 0-2 extra content packs), dumped through reader::Container and compared item by item with the logical container; PackagingTrace.tla accepts only the resolutions Locate allows, an empty diff and a true check. An extra stage replays seeded end-to-end histories against the root module Jubako.tla (ReadIsLogicalOrReported: whatever the history, every pack reads as its logical content, is reported missing, or reports an error / fails the check).",
+  text="Packaging.tla: packs are identities held by files (container or single), the manifest records locations, the reader resolves a pack inside the entry-point file first, then at its recorded location, identity deciding. TLC explores every packaging mode, concat of every subset of files, prefix embedding, removals / replacements / relocations (27k states) and checks SameLogicalContent, IdentityIsUuid, MissingIsReported, PresentStillReads (the pinned locator, modelled as PinnedLocate, violates them). Every configuration is produced with the real creator and tools (3 packagings, concat in every order and of every subset containing the entry point, prefixes of 1/63/64/4096 bytes in front of the entry file and in front of every pack file reached through its recorded location, 0-2 extra content packs), dumped through reader::Container and compared item by item with the logical container; PackagingTrace.tla accepts only the resolutions Locate allows, an empty diff and a true check. An extra stage replays seeded end-to-end histories against the root module Jubako.tla (ReadIsLogicalOrReported: whatever the history, every pack reads as its logical content, is reported missing, or reports an error / fails the check).",
   note="Trusted: TLC, tools/jbkdec.py for which file holds which pack identity, the expected logical dump computed from the scenario alone.",
   technique="TLA+ spec (Packaging.tla) model-checked with TLC + exhaustive replay of the configuration space through the real code + trace validation (PackagingTrace.tla)",
   design="5 C10"),
@@ -47,7 +47,7 @@ CLAIMED = {
   technique="TLA+ spec (Packaging.tla) model-checked with TLC + exhaustive fault-configuration replay + trace validation (PackagingTrace.tla)",
   design="5 C11"),
  "C12": dict(
-  text="Packaging.tla SetLocation + the masked manifest check of the independent decoder: sequences of 1-5 rewrites on manifests standalone and inside container files (created directly and by concat, so at several offsets), every listed pack and an unknown uuid, strings of 0/1/212/213 bytes and multi-byte UTF-8 ending at 213. After each step PackagingTrace.tla requires: no byte changed outside the rewritten pack-info block, inside it only the location field and the block CRC, every CRC and the masked global hash verify (independent decoder), ManifestPack::new opens and check() is true, all other pack infos unchanged, the new location reads back through decoder and library, and - after moving the pack's file to the new location - the full dump is unchanged. An unknown uuid leaves the file byte-identical.",
+  text="Packaging.tla SetLocation + the masked manifest check of the independent decoder: sequences of 1-5 rewrites on manifests standalone and inside container files (created directly and by concat, so at several offsets), every listed pack and an unknown uuid, strings of 0/1/212/213 bytes and multi-byte UTF-8 ending at 213; and on manifests written with ManifestPackCreator over synthetic pack descriptions whose pack-info table starts beyond 64 KiB / 128 KiB (2000 packs, packs with 30 000-70 000 bytes of free data), standalone and inside a container. After each step PackagingTrace.tla requires: no byte changed outside the rewritten pack-info block, inside it only the location field and the block CRC, every CRC and the masked global hash verify (independent decoder), ManifestPack::new opens and check() is true, all other pack infos unchanged, the new location reads back through decoder and library, and - after moving the pack's file to the new location - the full dump is unchanged. An unknown uuid leaves the file byte-identical.",
   note="Trusted: TLC, tools/jbkdec.py (own CRC-32C, BLAKE3 and mask).",
   technique="TLA+ spec (Packaging.tla SetLocation) + trace validation of rewrite histories (PackagingTrace.tla) with an independent byte-level oracle",
   design="5 C12"),
@@ -77,7 +77,7 @@ CLAIMED = {
   technique="TLA+ spec (AtomicCreate.tla) model-checked with TLC + strace-recorded file-system protocol and exhaustive crash / I/O-error injection on the real creator + trace validation (AtomicCreateTrace.tla)",
   design="5 C09"),
  "C07": dict(
-  text="Decoder.tla models the length-publication protocol with an explicit condition variable (readers evaluate their predicate, block, are woken and re-evaluate), chunk writes and publications as separate steps, and a decoder that may fail at any chunk boundary. TLC checks, for 3 readers x 3 chunks (more requests and chunks in thorough), LengthsOrdered, ReadsBelowWritten and, under weak fairness, Served (every request ends with a slice or - after a decoder failure - an error); the variants notify_one, length stored without the mutex, publish-before-write and failure-not-reported are each violated. The hooked build (--cfg jubako_verif) runs N in {2,8,16,32} reader threads over one opened pack with 45 compressed clusters (> 40 cache slots) and up to 44 clusters of > 500 chunks decoding at once (> 8 pool threads), same and different contents, whole and partial ranges through get_slice / stream / read_exact; the hooks fire while the buffer's mutex is held and double as seeded schedule points. DecoderTrace.tla accepts a run only if every Write / Publish / WaitDone / Slice obeys the protocol invariants per buffer, the cache never exceeds its capacity, every read returned exactly the stored bytes and every thread terminated.",
+  text="Decoder.tla models the length-publication protocol with an explicit condition variable (readers evaluate their predicate, block, are woken and re-evaluate), chunk writes and publications as separate steps, and a decoder that may fail at any chunk boundary. TLC checks, for 3 readers x 3 chunks (more requests and chunks in thorough), LengthsOrdered, ReadsBelowWritten and, under weak fairness, Served (every request ends with a slice or - after a decoder failure - an error); the variants notify_one, length stored without the mutex, publish-before-write and failure-not-reported are each violated. The hooked build (--cfg jubako_verif) runs N in {2,8,16,32} reader threads over one opened pack with 45 compressed clusters (> 40 cache slots) and up to 44 clusters of > 500 chunks decoding at once (> 8 pool threads), same and different contents, whole and partial ranges through get_slice / stream / read_exact; the hooks fire while the buffer's mutex is held and double as seeded schedule points. DecoderTrace.tla accepts a run only if every Write / Publish / WaitDone / Slice obeys the protocol invariants per buffer, the cache never exceeds its capacity, every read returned exactly the stored bytes and every thread terminated. ClusterCache.tla (with Lru.tla) models the cluster cache and the counted references readers hold: whatever is evicted meanwhile a reader reads the cluster it asked for from an object that still exists (ReadsOwnCluster; the variant where the cache owns the objects violates it), and the CacheGet hook (fired inside the cache mutex) is compared with the LRU model. One stress run in three is a stampede: all threads make the same reads, released together by a barrier before each, on a pack opened again four times (simultaneous first accesses to a cluster nobody has read).",
   note="Real schedules are sampled (200 seeds quick, 5000 thorough), the protocol is exhaustive in the model. 'No memory error' is covered only through the protocol invariant (readers below published, writer above, no reallocation); no sanitizer is part of this technique.",
   technique="TLA+ spec (Decoder.tla, safety + liveness with explicit condvar) model-checked with TLC + guarded hooks at linearization points + trace validation (DecoderTrace.tla) of seeded concurrent runs",
   design="5 C07"),
